@@ -298,6 +298,35 @@ pub const PATHS: [&str; 19] = [
     "eref", "many", "mut_batched", "many_w", "many_v", "many_vb", "many_pv", "arch",
 ];
 
+/// walks an `ExactSizeIterator` to its end and checks, before every step, that `len()` and
+/// `size_hint()` are exactly the number of items still to come
+macro_rules! exact_len_walk {
+    ($mk:expr, $name:literal) => {{
+        let mut it = $mk;
+        let total = it.len();
+        let mut seen = 0usize;
+        loop {
+            let rem = it.len();
+            let (lo, hi) = it.size_hint();
+            assert!(
+                rem + seen == total && lo == rem && hi == Some(rem),
+                "impl-inconsistency: {} after {} of {} items: len()={} size_hint=({}, {:?})",
+                $name,
+                seen,
+                total,
+                rem,
+                lo,
+                hi
+            );
+            if it.next().is_none() {
+                break;
+            }
+            seen += 1;
+        }
+        assert!(seen == total, "impl-inconsistency: {} announced {} items and yielded {}", $name, total, seen);
+    }};
+}
+
 #[allow(clippy::too_many_arguments)]
 fn run<Q>(
     world: &mut World,
@@ -315,6 +344,10 @@ where
 {
     match path {
         "iter" => {
+            {
+                let mut qb = world.query::<Q>();
+                exact_len_walk!(qb.iter(), "QueryIter");
+            }
             let mut qb = world.query::<Q>();
             let it = qb.iter();
             let len = it.len();
@@ -322,6 +355,7 @@ where
             format!("len={} items={}", len, sorted_pairs(items))
         }
         "mut" => {
+            exact_len_walk!(world.query_mut::<Q>().into_iter(), "QueryMut's QueryIter");
             let it = world.query_mut::<Q>().into_iter();
             let len = it.len();
             let items: Vec<(Entity, String)> = it.map(|(e, i)| (e, i.canon())).collect();
@@ -329,6 +363,10 @@ where
         }
         "prepared" => {
             let pq = store.entry(k).or_insert_with(|| Box::new(PreparedQuery::<Q>::new())).downcast_mut::<PreparedQuery<Q>>().unwrap();
+            {
+                let mut b = pq.query(world);
+                exact_len_walk!(b.iter(), "PreparedQueryIter");
+            }
             let mut b = pq.query(world);
             let it = b.iter();
             let len = it.len();
@@ -337,6 +375,7 @@ where
         }
         "prepared_mut" => {
             let pq = store.entry(k).or_insert_with(|| Box::new(PreparedQuery::<Q>::new())).downcast_mut::<PreparedQuery<Q>>().unwrap();
+            exact_len_walk!(pq.query_mut(world), "PreparedQueryIter (query_mut)");
             let it = pq.query_mut(world);
             let len = it.len();
             let items: Vec<(Entity, String)> = it.map(|(e, i)| (e, i.canon())).collect();
